@@ -48,6 +48,13 @@ def handle (st : State) (toks : List String) : State × String :=
       | some d => (removeDataset st d, "ok")
       | none => (st, "bad-op")
   | ["rows"] => (st, renderSorted st)
+  | ["lookup", k, q, fb] => match k.toNat?, parseTS q, fb.toNat? with
+      | some k, some q, some fb => (st, match lookup st k q with
+          -- nothing in the CALIBRATION collection: the RUN next in the path answers (it is valid at every
+          -- instant, so it overlaps every timespan but the empty one)
+          | .none => if Gen.TsPy.isEmpty q then "none" else s!"one {fb}"
+          | .one d => s!"one {d}" | .ambiguous => "ambiguous")
+      | _, _, _ => (st, "bad-op")
   | ["lookup", k, q] => match k.toNat?, parseTS q with
       | some k, some q => (st, match lookup st k q with
           | .none => "none" | .one d => s!"one {d}" | .ambiguous => "ambiguous")
